@@ -12,6 +12,8 @@ SITE_COPY = "IntRNSsystem::IntRNSsystem(const IntRNSsystem&)"
 KLASS_COPY = "copied system, size>=2"
 SITE_CRA = "ChineseRemainder<Ring,Domain,true>::operator()"
 KLASS_CRA = "result outside [0, M*D)"
+SITE_RU = "RNSsystem<Integer,Modular<ruint<7>>>::RingToRns"
+KLASS_RU = "integer wider than the element type"
 SITE_FIXCOPY = "RNSsystemFixed::RNSsystemFixed(const Self_t&)"
 KLASS_FIXCOPY = "does not compile"
 
@@ -23,7 +25,54 @@ INT_HISTS = ["fresh", "reuse", "copycold", "copywarm", "copy2", "assigncold", "a
 DOM_HISTS = ["fresh", "reuse", "copycold", "copywarm", "copy2", "assigncold", "assignwarm", "setcold", "setwarm"]
 FIX_HISTS = ["fresh", "reuse", "assigncold", "assignwarm"]
 POLY_HISTS = ["fresh", "reuse", "copycold", "copywarm"]
-DOMS = ["mdouble", "mi64", "mu64", "mi32", "mint"]
+DOMS = ["mdouble", "mi64", "mu64", "mi32", "mint", "mfloat", "mu32", "mont32", "mru7", "mlog16", "mb64", "mbd"]
+BALANCED = ("mb64", "mbd")        # residues and digits are the representatives of least absolute value
+FIX_COPY_HISTS = ["copycold", "copywarm", "copy2", "copyassign"]
+
+
+def is_prime(n):
+    if n < 2:
+        return False
+    for q in (2, 3, 5, 7, 11, 13, 17, 19, 23, 29, 31, 37):
+        if n % q == 0:
+            return n == q
+    d, r = n - 1, 0
+    while d % 2 == 0:
+        d //= 2; r += 1
+    for a in (2, 3, 5, 7, 11, 13, 17, 19, 23, 29, 31, 37):
+        x = pow(a, d, n)
+        if x in (1, n - 1):
+            continue
+        for _ in range(r - 1):
+            x = x * x % n
+            if x == n - 1:
+                break
+        else:
+            return False
+    return True
+
+
+def dom_pred(dom):
+    """which moduli a residue domain accepts (besides <= maxCardinality)"""
+    if dom == "mlog16":
+        return lambda c: c > 2 and is_prime(c)          # tabulated field: odd prime
+    if dom == "mont32" or dom in BALANCED:
+        return lambda c: c > 2 and c % 2 == 1           # Montgomery needs an odd modulus; balanced: symmetric range
+    return lambda c: c > 1
+
+
+def bal(x, p):
+    x %= p
+    return x - p if x > (p - 1) // 2 else x
+
+
+def bal_digits(ps, v):
+    out = []
+    for p in ps:
+        d = bal(v, p)
+        out.append(d)
+        v = (v - d) // p
+    return out
 
 
 # ------------------------------------------------------------------ facts read from the source
@@ -154,8 +203,9 @@ def prev_coprime(start, acc, lo=2):
     return None
 
 
-def gen_moduli(rng, n, maxp, style):
-    """n pairwise coprime moduli in [2, maxp] (maxp None: unbounded, multi-limb allowed)"""
+def gen_moduli(rng, n, maxp, style, pred=None):
+    """n pairwise coprime moduli in [2, maxp] (maxp None: unbounded, multi-limb allowed) all satisfying pred"""
+    pred = pred or (lambda c: c > 1)
     ps, acc = [], 1
     tries = 0
     while len(ps) < n and tries < 50 * n + 200:
@@ -163,8 +213,10 @@ def gen_moduli(rng, n, maxp, style):
         if style == "smallprimes":
             c = rng.choice(SMALL_PRIMES[:max(n + 5, 30)])
         elif style == "edge" and maxp:
-            c = prev_coprime(maxp - rng.below(3) if not ps else ps[-1] - 1 - rng.below(2), acc)
-            if c is None:
+            c = maxp - rng.below(3) if not ps else ps[-1] - 1 - rng.below(2)
+            while c >= 2 and not (math.gcd(c, acc) == 1 and pred(c)):
+                c -= 1
+            if c < 2:
                 break
         elif style == "tiny":
             c = rng.range(2, 40)
@@ -178,14 +230,14 @@ def gen_moduli(rng, n, maxp, style):
             c = rng.range(2, hi) if rng.chance(1, 2) else rng.bits(rng.range(2, hi.bit_length() - 1)) + 2
         if maxp and c > maxp:
             continue
-        if c > 1 and math.gcd(c, acc) == 1:
+        if c > 1 and math.gcd(c, acc) == 1 and pred(c):
             ps.append(c)
             acc *= c
     # fill with fresh small primes when the style ran dry
     k = 0
     while len(ps) < n and k < len(SMALL_PRIMES):
         q = SMALL_PRIMES[k]; k += 1
-        if math.gcd(q, acc) == 1 and (not maxp or q <= maxp):
+        if math.gcd(q, acc) == 1 and (not maxp or q <= maxp) and pred(q):
             ps.append(q); acc *= q
     if rng.chance(2, 3):
         rng.shuffle(ps)
@@ -324,6 +376,8 @@ def main(tier, replay=None):
         o = other(n)
         if kind == "int":
             ml = "int %s %s %d %s %s %d %d %s" % (facts["cksrc"], hist, n, " ".join(map(str, ps)), " ".join(map(str, rs)), a, len(o), " ".join(map(str, o)))
+        elif sub in BALANCED:
+            ml = "skip"               # balanced representatives: specification oracle only
         else:
             ml = "rns %s %d %s %s %d %d %s" % (hist, n, " ".join(map(str, ps)), " ".join(map(str, rs)), a, len(o), " ".join(map(str, o)))
         cases.append({"kind": kind, "hist": hist, "sub": sub, "ps": ps, "rs": rs, "a": a, "impl": il, "model": ml})
@@ -368,7 +422,7 @@ def main(tier, replay=None):
                     style = "smallprimes"
                 if style == "multilimb" and n > mlcap:
                     n = rng.range(2, mlcap)
-                ps = gen_moduli(rng, n, maxp, style)
+                ps = gen_moduli(rng, n, maxp, style, dom_pred(dom))
                 rs = gen_residues(rng, ps)
                 add_sys("rns", hist, dom, ps, rs, gen_a(rng, ps))
     # the documented example of the known copy defect
@@ -383,9 +437,12 @@ def main(tier, replay=None):
                 n = rng.choice([2, 3, 4, 5, 7, 8, 9, 15, 16, 17])
             ps = gen_moduli(rng, n, None, style)
             rs = gen_residues(rng, ps)
-            il = "fixed %s %d %s %s" % (hist, n, " ".join(map(str, ps)), " ".join(map(str, rs)))
+            tt = rng.choice(["Integer", "int64", "uint64"])
+            if max(rs) >= (1 << 63):
+                tt = "Integer"
+            il = "fixed %s %s %d %s %s" % (hist, tt, n, " ".join(map(str, ps)), " ".join(map(str, rs)))
             ml = "fixed %d %s %s" % (n, " ".join(map(str, ps)), " ".join(map(str, rs)))
-            cases.append({"kind": "fixed", "hist": hist, "sub": "", "ps": ps, "rs": rs, "impl": il, "model": ml})
+            cases.append({"kind": "fixed", "hist": hist, "sub": tt, "ps": ps, "rs": rs, "impl": il, "model": ml})
     # ---- ChineseRemainder functor
     def add_cra(dom, red, M, D, A, e):
         il = "cra %s %d %d %d %d %d" % (dom, 1 if red else 0, M, D, A, e)
@@ -466,7 +523,8 @@ def main(tier, replay=None):
     dist = {}
     nbroke = 0
     CXX = {"mdouble": "Modular<double>", "mi64": "Modular<int64_t>", "mu64": "Modular<uint64_t>", "mi32": "Modular<int32_t>",
-           "mint": "Modular<Integer>"}
+           "mint": "Modular<Integer>", "mfloat": "Modular<float>", "mu32": "Modular<uint32_t>", "mont32": "Montgomery<int32_t>",
+           "mru7": "Modular<ruint<7>>", "mlog16": "Modular<Log16>", "mb64": "ModularBalanced<int64_t>", "mbd": "ModularBalanced<double>"}
 
     def broke(msg):
         nonlocal nbroke
@@ -490,20 +548,26 @@ def main(tier, replay=None):
                 ps, rs, a = c["ps"], c["rs"], c["a"]
                 n = len(ps)
                 V = crt_oracle(ps, rs)
-                exp = [mixed_digits(ps, V), [V]] + ([[prod(ps)]] if kind == "int" else []) + [[a % p for p in ps], ck_oracle(ps), [V]]
+                if c["sub"] in BALANCED:
+                    # the same law in the representation of the domain: digits, residues and value of least absolute value
+                    Vb = bal(V, prod(ps))
+                    cko = [bal(x, p) for x, p in zip(ck_oracle(ps), ps[1:])]
+                    exp = [bal_digits(ps, Vb), [Vb], [bal(a, p) for p in ps], cko, [Vb], [n] + ps, ps, cko, [Vb]]
+                else:
+                    exp = ([mixed_digits(ps, V), [V]] + ([[prod(ps)]] if kind == "int" else []) + [[a % p for p in ps], ck_oracle(ps), [V]]
+                           + [[n] + ps, ps, ck_oracle(ps), [V]])
                 exp_toks = flat(exp)
                 got = [ints(g) for g in groups(il)]
                 chk.count((kind, c["sub"], c["hist"], tuple(ps), tuple(rs)), nontrivial=(n >= 2 and V > 1))
                 if got != exp:
                     spec_ok = False
-                    names = ["mixed radix digits", "RnsToRing", "product"] if kind == "int" else ["mixed radix digits", "RnsToRing"]
-                    names += ["RingToRns", "reciprocals", "second RnsToRing"]
+                    names = ["RnsToMixedRadix", "RnsToRing", "product"] if kind == "int" else ["RnsToMixedRadix", "RnsToRing"]
+                    names += ["RingToRns", "Reciprocals", "RnsToRing(second call)", "NumOfPrimes/ith", "Primes", "reciprocal(i)", "MixedRadixToRing"]
                     bad = [names[j] for j in range(min(len(exp), len(got))) if got[j] != exp[j]] or ["shape"]
-                    if kind == "int" and c["hist"] in ("copycold", "copywarm", "copy2") and n >= 2:
-                        chk.fail_input(SITE_COPY, KLASS_COPY, c, exp, il, "a copy-constructed IntRNSsystem does not reconstruct the CRT value")
-                    elif kind == "rns" and bad == ["RingToRns"] and a < 0 and c["sub"] in ("mu64",):
-                        chk.fail_input("RNSsystem<Integer,%s>::RingToRns" % CXX[c["sub"]], "negative integer", c, exp, il,
-                                       "residues of a negative integer are not canonical (Domain::init(Element&, const Integer&) of an unsigned Modular)")
+                    if kind == "rns" and c["sub"] == "mru7" and bad == ["RingToRns"] and abs(a) >= (1 << 128):
+                        # root cause outside the anchored code: Modular<ruint<K>>::init(Element&, const Integer&) truncates the
+                        # Integer to the element width before reducing (known finding of C04, "wider-than-element")
+                        chk.fail_input(SITE_RU, KLASS_RU, c, exp, il, "residues of an integer wider than the element type are wrong")
                     else:
                         cls = ("IntRNSsystem" if kind == "int" else "RNSsystem<Integer,%s>" % CXX[c["sub"]])
                         chk.fail_input("%s::%s" % (cls, bad[0]), "obtained by %s, %d moduli" % (c["hist"], n), c, exp, il,
@@ -551,7 +615,7 @@ def main(tier, replay=None):
             chk.fail_input("harness output", "unparsable", c, None, il, str(ex))
         if i % 211 == 0:
             chk.sample({"impl_case": c["impl"][:300], "impl_out": il[:300]})
-        if mout is not None:
+        if mout is not None and c["model"] != "skip":
             ncorr += 1
             mtoks = [t for t in mout[i].split() if t != "|"]
             if mtoks != itoks:
@@ -572,16 +636,19 @@ def main(tier, replay=None):
         else:
             chk.broke("harness/c14_fixedcopy.C does not compile against /repo for another reason", l3)
     else:
-        fc = [c for c in cases if c["kind"] == "fixed"][:200]
-        rc, fo, fe = vf.run_lines(hfix, "".join(c["model"] + "\n" for c in fc), timeout=600)
+        fc = [c for c in cases if c["kind"] == "fixed"][:400]
+        fh = [FIX_COPY_HISTS[j % len(FIX_COPY_HISTS)] for j in range(len(fc))]
+        rc, fo, fe = vf.run_lines(hfix, "".join("%s %s\n" % (h, c["model"].split(" ", 1)[1]) for h, c in zip(fh, fc)), timeout=600)
         if rc != 0 or len(fo) != len(fc):
             chk.broke("c14_fixedcopy failed (rc=%s)" % rc, fe)
         else:
-            for c, l in zip(fc, fo):
+            for h, c, l in zip(fh, fc, fo):
                 V = crt_oracle(c["ps"], c["rs"])
-                chk.count(("fixedcopy", tuple(c["ps"]), tuple(c["rs"])), nontrivial=len(c["ps"]) >= 2)
+                chk.count(("fixedcopy", h, tuple(c["ps"]), tuple(c["rs"])), nontrivial=len(c["ps"]) >= 2)
+                dist["fixed//" + h] = dist.get("fixed//" + h, 0) + 1
                 if l.strip() != str(V):
-                    chk.fail_input(SITE_FIXCOPY, "copied system, %d moduli" % len(c["ps"]), c, V, l, "copy-constructed fixed system differs from CRT value")
+                    chk.fail_input(SITE_FIXCOPY, "obtained by %s, %d moduli" % (h, len(c["ps"])), dict(c, impl="c14_fixedcopy: %s %s" % (h, c["model"].split(" ", 1)[1])),
+                                   V, l, "copy-constructed fixed system differs from the CRT value")
 
     chk.cov["rule"] = ("systems obtained by every history (fresh, reuse, copy of cold/warm/copy, assignment over cold/warm, setPrimes over cold/warm, "
                        "templated constructor) x residue domains (Integer with Integer/int64/uint64 residue containers; Modular<double|int64_t|uint64_t|int32_t|Integer>) "
